@@ -72,11 +72,61 @@ CHECKS = {
                 'n_examples.',
         'design_ref': 'DESIGN.md 4.1',
     },
+    'C04': {
+        'technique': TECH + 'write-reference -> storage fault (flipped char, '
+                     'lost/duplicated line, torn write, lost file, appended '
+                     'garbage, CRLF, BOM) -> check, through the three text '
+                     'entry points; verdict vs. the M-text reference model',
+        'text': 'Seeded exploration with fault injection on the stored '
+                'reference/actual file between write and check. Fault-free '
+                'cases decide "agreeing texts pass under every option '
+                'subset"; faulted and near-miss cases decide "any difference '
+                'not excused fails". The oracle is an independent executable '
+                'statement of the comparison rule (models/textcmp.py) that '
+                'abstains where the documented meaning is not unique.',
+        'note': 'Trusted: models/textcmp.py (written from the statement and '
+                'user docs); pattern family and token alphabets in '
+                'gens/lines.py; abstentions are counted in evidence.',
+        'design_ref': 'DESIGN.md 4.2',
+    },
+    'C10': {
+        'technique': TECH + 'histories of assertions by several test classes '
+                     'sharing the class-level regeneration table, argv / '
+                     'pytest option spellings, I/O-error faults at write '
+                     'sites of failing normal-mode assertions, lost '
+                     'references; full snapshot audit of the reference store '
+                     'around every assertion; M-regen table model',
+        'text': 'Seeded exploration over call histories and fault placements. '
+                'After every assertion (whatever its outcome, incl. injected '
+                'ENOSPC/EACCES/EIO/short writes) the complete reference store '
+                'is compared with its pre-op snapshot: unchanged when the '
+                'model says normal mode, only the own reference written when '
+                'regenerating, and the re-issued assertion must pass.',
+        'note': 'Trusted: models/regen.py; positive argv obligation only for '
+                'documented placements; DataFrame references limited to '
+                'dtypes that round-trip parquet on this installation.',
+        'design_ref': 'DESIGN.md 4.2',
+    },
+    'C15': {
+        'technique': TECH + 'complete before/after filesystem audit plus '
+                     'write-site log around every assertion, configured vs. '
+                     'default temp dir, stale artefacts from earlier ops, '
+                     'missing references; artefact contents vs. M-text',
+        'text': 'Seeded exploration of failing and passing assertions with a '
+                'whole-world audit (a unit test can assert one file exists; '
+                'it cannot assert nothing else was written). Named files '
+                'must exist, the raw actual must hold the actual, the '
+                'post-processed pair must differ exactly at the model\'s '
+                'unexcused positions, binary offsets/lengths exact.',
+        'note': 'Trusted: models/textcmp.py; "exactly the actual content" '
+                'read as line sequences modulo trailing empty lines; position '
+                'check only when line counts agree and no removals/preprocess.',
+        'design_ref': 'DESIGN.md 4.2',
+    },
 }
 
 NOT_BUILT = {p: 'claimed in DESIGN.md; machine under construction, no check registered yet'
-             for p in ('C01', 'C04', 'C06', 'C08', 'C09', 'C10', 'C11', 'C12',
-                       'C15', 'C17')}
+             for p in ('C01', 'C06', 'C08', 'C09', 'C11', 'C12', 'C17')}
 
 NOT_APPLICABLE = {
     'C02': 'pure function of (frame, constraint set, epsilon, type_checking): '
